@@ -261,7 +261,13 @@ def run_p(case):
         idx = [i for i, p in enumerate(pkts) if p.conn == f.id and p.payload]
         # odd positions get a changed checksum field (payload intact), even positions a flipped payload byte: the first payload
         # packet of a connection must be of the first kind (a damaged ClientHello would not decrypt anyway)
-        des += [idx[-1], idx[0]] if f.id in (0, 1) else [idx[1], idx[len(idx) // 2]]
+        if f.kind == "quic" and f.id == 3:
+            # for the QUIC connection on the unconfigured port both designated datagrams CARRY STREAM DATA (the second one gets the
+            # changed checksum field with an intact payload: processed, it would show in the export)
+            sd = [i for i, g in zip(idx, f.conn.dgrams) if g.stream]
+            des += [sd[0], sd[-1]]
+        else:
+            des += [idx[-1], idx[0]] if f.id in (0, 1) else [idx[1], idx[len(idx) // 2]]
     fails, nontriv, outcomes = [], [], set()
     n = 0
     sample = None
